@@ -44,13 +44,17 @@ type DaemonCfg struct {
 	// (relative: "storage"), and every incarnation is started from a working directory of its own - a daemon started by
 	// hand from a shell after the service manager had started it from somewhere else.
 	HomeConfig bool
+	// EnvConfig: no configuration file at all - everything comes from DIRK_* environment variables (a container
+	// deployment), wallets are in the filesystem store's default location under the home directory, the storage path is
+	// the default, and every incarnation is started from a working directory of its own.
+	EnvConfig bool
 	// RelativeStorage: the storage path is left at its default ("storage") or given as a relative path, to be
 	// resolved by the binary against its base directory (or the home directory).
 	RelativeStorage bool
 	// GenerationTimeout, if set, is written as process.generation-timeout; ExtraPeers are further entries of the peer table.
 	GenerationTimeout string
 	ExtraPeers        map[string]string
-	Pop             *fsPopulation
+	Pop               *fsPopulation
 }
 
 // fsPopulation is a population whose wallets live in a filesystem store (a template directory copied per daemon).
@@ -128,6 +132,10 @@ func NewDaemon(t *testing.T, rc *RunCtx, cfg DaemonCfg) *Daemon {
 	must(os.WriteFile(filepath.Join(base, "certs", "server.key"), resources.SignerTest01Key, 0o600))
 	must(os.WriteFile(filepath.Join(base, "certs", "ca.crt"), resources.CACrt, 0o600))
 	must(copyTree(cfg.Pop.template, filepath.Join(base, "wallets")))
+	if cfg.EnvConfig {
+		// the filesystem store's default location
+		must(copyTree(cfg.Pop.template, filepath.Join(base, ".config", "ethereum2", "wallets")))
+	}
 	d.writeConfig()
 	return d
 }
@@ -181,6 +189,9 @@ func (d *Daemon) writeConfig() {
 	if d.cfg.HomeConfig {
 		name = ".dirk.json"
 	}
+	if d.cfg.EnvConfig {
+		name = "not-read.json" // kept for the record only: the process is configured through its environment
+	}
 	if err := os.WriteFile(filepath.Join(base, name), []byte(text), 0o600); err != nil {
 		d.t.Fatalf("config: %v", err)
 	}
@@ -199,7 +210,14 @@ func (d *Daemon) Start(extraEnv ...string) error {
 		}
 		cmd := exec.Command(dirkBinary(d.t), "--base-dir", d.Base)
 		cmd.Dir = d.Base
-		if d.cfg.HomeConfig {
+		if d.cfg.EnvConfig {
+			cmd = exec.Command(dirkBinary(d.t))
+			cmd.Dir = filepath.Join(d.Base, fmt.Sprintf("started-from-%d", d.Incarnation))
+			if err := os.MkdirAll(cmd.Dir, 0o700); err != nil {
+				return err
+			}
+			extraEnv = append(d.envConfig(), extraEnv...)
+		} else if d.cfg.HomeConfig {
 			cmd = exec.Command(dirkBinary(d.t))
 			cmd.Dir = filepath.Join(d.Base, fmt.Sprintf("started-from-%d", d.Incarnation))
 			if err := os.MkdirAll(cmd.Dir, 0o700); err != nil {
@@ -252,6 +270,34 @@ func (d *Daemon) Start(extraEnv ...string) error {
 		}
 	}
 	return lastErr
+}
+
+// envConfig renders the configuration as DIRK_* environment variables.
+func (d *Daemon) envConfig() []string {
+	perms := d.cfg.PermissionsJSON
+	if perms == "" {
+		perms = `{"client-test01": {"Wallet 1": ["All"], "Wallet 3": ["All"]}, "client-test02": {"Wallet 2": ["All"]}}`
+	}
+	var table map[string]map[string][]string
+	if err := json.Unmarshal([]byte(perms), &table); err != nil {
+		d.t.Fatalf("permissions: %v", err)
+	}
+	clients := map[string]map[string]string{}
+	env := []string{
+		"DIRK_SERVER_NAME=signer-test01", "DIRK_SERVER_ID=1", "DIRK_SERVER_LISTEN_ADDRESS=" + d.Addr,
+		"DIRK_CERTIFICATES_SERVER_CERT=file://" + d.Base + "/certs/server.crt", "DIRK_CERTIFICATES_SERVER_KEY=file://" + d.Base + "/certs/server.key",
+		"DIRK_CERTIFICATES_CA_CERT=file://" + d.Base + "/certs/ca.crt",
+		"DIRK_UNLOCKER_ACCOUNT_PASSPHRASES=pass", "DIRK_UNLOCKER_WALLET_PASSPHRASES=pass", "DIRK_PROCESS_GENERATION_PASSPHRASE=pass",
+		fmt.Sprintf(`DIRK_PEERS={"1":"signer-test01:%d"}`, d.port), "DIRK_LOG_FILE=" + d.Base + "/dirk.log",
+		fmt.Sprintf("DIRK_SERVER_RULES_PERIODIC_PRUNING=%v", d.cfg.Pruning),
+	}
+	for _, c := range sortedKeys(table) {
+		clients[c] = map[string]string{}
+		b, _ := json.Marshal(table[c])
+		env = append(env, "DIRK_PERMISSIONS_"+strings.ToUpper(strings.ReplaceAll(c, "-", "_"))+"="+string(b))
+	}
+	b, _ := json.Marshal(clients)
+	return append(env, "DIRK_PERMISSIONS="+string(b))
 }
 
 // Alive reports whether the process is still there.
